@@ -277,7 +277,7 @@ def gen_net(rng, tier):
 def run_shard(rep, tier, seed, shard, nshards):
     install_maxcounter_invariant()
     dl = Deadline(budget(tier, 50, 800))
-    ncases = budget(tier, 150, 2500)
+    ncases = budget(tier, 500, 2500)
     for k in range(ncases):
         if dl.expired():
             break
@@ -318,7 +318,7 @@ def run_shard(rep, tier, seed, shard, nshards):
 
     # round trips
     dl2 = Deadline(budget(tier, 20, 300))
-    for k in range(budget(tier, 40, 600)):
+    for k in range(budget(tier, 100, 600)):
         if dl2.expired():
             break
         cs = f"{seed}/C04/rt/{shard}/{k}"
